@@ -8,7 +8,7 @@ TAG=$1; shift
 for P in "$@"; do
   SRC=/tmp/seed-$TAG-$P
   [ -f "$SRC/change.patch" ] || { echo "$P: no change.patch"; continue; }
-  DEST=seeded/$P; mkdir -p "$DEST"
+  DEST=seeded/$P${DEST_SUFFIX:-}; mkdir -p "$DEST"
   cp "$SRC/change.patch" "$DEST/patch.diff"; cp "$SRC/demo_$P.py" "$DEST/demo_$P.py"
   D=$(mktemp -d /tmp/seedeval-XXXXXX)
   rsync -a --exclude .git --exclude '*.pyc' --exclude __pycache__ --exclude '.hypothesis' /repo/ "$D/"
@@ -36,7 +36,7 @@ meta = {"property": p, "demo_exit_with_change": int(rcw), "demo_exit_without_cha
         "confirmed": int(rcw) == 1 and int(rcwo) == 0 and "stable_missing=0" in base,
         "caught_by_quick": int(nv) > 0,
         "ran": ["demo with/without change", "tools/baseline_check.sh (509 pinned tests) on the patched copy", f"./run.sh {p} quick with VERIF_REPO=<patched copy>"]}
-json.dump(meta, open(f"seeded/{p}/meta.json", "w"), indent=1)
+json.dump(meta, open(f"seeded/{p}" + __import__("os").environ.get("DEST_SUFFIX","") + "/meta.json", "w"), indent=1)
 print(p, "confirmed" if meta["confirmed"] else "NOT-CONFIRMED", "caught" if meta["caught_by_quick"] else "MISSED", f"demo {rcw}/{rcwo}", base.strip()[:60], f"{t}s")
 PY
   git checkout -q -- evidence/$P.json 2>/dev/null
